@@ -1,6 +1,6 @@
 (* C04 — witnesses of the finding classes, guards per finding, examples. *)
 From Coq Require Import ZArith QArith Qround Qabs Bool List Lia Lqa Setoid.
-Require Import QV.C04.Model QV.C04.Spec QV.C04.Proofs QV.C04.Proofs2.
+Require Import QV.C04.Model QV.C04.Spec QV.C04.Proofs QV.C04.Proofs2 QV.C04.Proofs4.
 Import ListNotations.
 Open Scope Q_scope.
 
@@ -29,6 +29,45 @@ Definition ex_for : pt :=
     (PSeq [PRep (EVar 3%N) (PAtom KConst 0 (EVar 0%N));
            PArith (PTable 0 [[ELit (VInt 0); EMul (EVar 0%N) (EVar 3%N)]]) (PAtom KFunc 0 (EMul (EVar 0%N) (EVar 3%N)))]).
 Definition ex_for_env : env := [(0%N, VTime (1 # 4)); (1%N, VInt 0)].
+
+(* binary vs decimal reading: a float 0.3 (binary value below 3/10) next to a TimeType strictly between the two *)
+Definition w_view : pt * env :=
+  (PTable 0 [[EVar 0%N]; [EVar 1%N]],
+   [(0%N, VFloat (5404319552844595 # 18014398509481984) (3 # 10)); (1%N, VTime (2999999999999999999 # 10000000000000000000))]).
+
+Definition guards_of (w : pt * env) : list bool :=
+  [g_view (fst w) (snd w); guard_finding FNegCount (fst w) (snd w); guard_finding FNegDuration (fst w) (snd w);
+   guard_finding FNearInteger (fst w) (snd w); guard_finding FParallel (fst w) (snd w); guard_C04 (fst w) (snd w)].
+
+Ltac refute := split; [do 2 eexists; split; [vm_compute; reflexivity|]; split; [vm_compute; reflexivity|]; vm_compute; discriminate
+                      | vm_compute; reflexivity].
+
+(* each witness: the code's numbers disagree; exactly its own guard is false (and with it guard_C04) *)
+Lemma refuted_negcount : disagrees w_negcount /\ guards_of w_negcount = [true; false; true; true; true; false].
+Proof. refute. Qed.
+Lemma refuted_negdur : disagrees w_negdur /\ guards_of w_negdur = [true; true; false; true; true; false].
+Proof. refute. Qed.
+Lemma refuted_nearint : disagrees w_nearint /\ guards_of w_nearint = [true; true; true; false; true; false].
+Proof. refute. Qed.
+Lemma refuted_parallel : disagrees w_parallel /\ guards_of w_parallel = [true; true; true; true; false; false].
+Proof. refute. Qed.
+Lemma refuted_view : disagrees w_view /\ guards_of w_view = [false; true; true; true; true; false].
+Proof. refute. Qed.
+
+(* non-vacuity: inputs with a float parameter / a for-loop with negative step, index-dependent body, table, atomic
+   arithmetic, constraint, single-waveform rendering satisfy the guard *)
+Definition ex_full : pt := PSeq [PSingle (PConstr [(EVar 1%N, ELit (VInt 0))] ex_for); ex_tpl].
+Definition ex_full_env : env := (1%N, VInt 0) :: (3%N, VInt 7) :: ex_env.   (* first binding of a name wins *)
+
+Lemma example_guard :
+  guard_C04 ex_tpl ex_env = true /\ guards_of (ex_tpl, ex_env) = [true; true; true; true; true; true]
+  /\ exists v, sym ex_tpl (decimalize ex_env) = Ok v /\ time_of v == 3000001 # 10.
+Proof. split; [vm_compute; reflexivity|]. split; [vm_compute; reflexivity|]. eexists; split; vm_compute; reflexivity. Qed.
+
+Lemma example_for_guard :
+  guard_C04 ex_for ex_for_env = true /\ guards_of (ex_for, ex_for_env) = [true; true; true; true; true; true]
+  /\ exists v, sym ex_for (decimalize ex_for_env) = Ok v /\ time_of v == 9 # 2.
+Proof. split; [vm_compute; reflexivity|]. split; [vm_compute; reflexivity|]. eexists; split; vm_compute; reflexivity. Qed.
 
 Lemma example_for : (exists d, den ex_for (qenv_of ex_for_env) = Some d /\ d == 9 # 2)
   /\ (exists prog, create_program real ex_for ex_for_env = Ok (Some prog)) /\ g_view ex_for ex_for_env = true
